@@ -3,6 +3,7 @@ package props
 import (
 	"fmt"
 	"os"
+	"sort"
 
 	"github.com/google/reftable"
 	"verif/harness/gen"
@@ -84,11 +85,21 @@ func runC13Case(c *Ctx, idx int) {
 		}
 		if rng.Chance(0.3) {
 			// tombstone for an existing log entry
+			var live []gen.LogKey
 			for k, l := range model.Logs {
 				if !l.Del {
-					t.Logs = append(t.Logs, gen.Log{Name: k.Name, UI: k.UI, Del: true})
-					break
+					live = append(live, k)
 				}
+			}
+			sort.Slice(live, func(i, j int) bool {
+				if live[i].Name != live[j].Name {
+					return live[i].Name < live[j].Name
+				}
+				return live[i].UI < live[j].UI
+			})
+			if len(live) > 0 {
+				k := live[rng.Intn(len(live))]
+				t.Logs = append(t.Logs, gen.Log{Name: k.Name, UI: k.UI, Del: true})
 			}
 		}
 		if len(t.Refs)+len(t.Logs) == 0 {
